@@ -179,6 +179,12 @@ def body(case):
                 note_label('bkspace-divides-range')
         nc = len(t) - nord
         check(np.asarray(b.coeff).shape == (nc,), 'knots:coeff-shape', lambda: dict(got=np.asarray(b.coeff).shape, want=nc))
+    for k in ('bkpt', 'placed'):
+        if k in kw and kw[k].dtype.kind == 'f' and kw[k].size:
+            # the caller goes on using its own array (here: refills it); the knots of the object are the object's
+            kw[k][...] = kw[k] * 0.5 - 7.0
+            with judge('aliasing'):
+                check(bool(np.array_equal(np.asarray(b.breakpoints, dtype='f8'), t)), 'knots:change-when-the-caller-reuses-its-breakpoint-array', lambda: dict(nord=nord, option=k))
     # coefficients and evaluation points
     cs = case['coeff_seed']
     coeff = np.array([3.0 * cs[j % 8] * (1 + (j // 8)) + 0.25 * math.sin(1.7 * j) for j in range(nc)])
